@@ -776,8 +776,8 @@ func raceCases(out *kit.Out, r *kit.Rand, bound time.Duration) {
 	k := 0
 	for i := 0; k < 24 && i < 400; i++ {
 		chain, stop, class, n := genCase(r, i, "quick")
-		// the known deadlocks cost a worker each and add nothing under the race detector
-		if strings.Contains(chain, "loop") || (strings.Contains(chain, "udf") && strings.Contains(chain, "fail")) {
+		// the known deadlock costs a worker and adds nothing under the race detector
+		if strings.Contains(chain, "loop") {
 			continue
 		}
 		if n > 1500 {
